@@ -217,6 +217,12 @@ def step (st : St) (toks : List String) : St × String :=
       if !ms.added then (st, "bad-op") else
       (updMon st ms.id (fun x => { x with m := startMonitor x.mc st.w x.m, started := true }), "ok")
     | none => (st, "bad-op")
+  | ["stop", id] =>
+    -- StopMonitor: the binding is gone (its snapshot is not observed any more); the other monitors
+    -- of the case are untouched — that is the claim the `oracle snap` lines of the survivors test
+    match id.toNat?.bind (getMon st) with
+    | some ms => ({ st with mons := st.mons.filter (·.id != ms.id) }, "ok")
+    | none => (st, "bad-op")
   | ["snap", id] =>
     match id.toNat?.bind (getMon st) with
     | some ms => (st, showSnap (ms.m.snapshot (modelSort (ridOf st))))
